@@ -163,7 +163,8 @@ def run_unit(u, repo=None, keep_trace=True):
         base_cmd += ["--object-bits", str(u.object_bits)]
     BACK = {"sat": [], "cvc5": ["--cvc5"], "z3": ["--z3"], "kissat": ["--external-sat-solver", "kissat"]}
     backends = u.backend if isinstance(u.backend, (list, tuple)) else [u.backend]
-    tmo = min(u.timeout, int(os.environ.get("VERIF_TIMEOUT_CAP", "100000")))
+    # floor of 15 min: unit times were measured on an idle machine; under load (16 units in parallel, other jobs) they can be 10x slower
+    tmo = min(max(u.timeout, 900), int(os.environ.get("VERIF_TIMEOUT_CAP", "100000")))
     if len(backends) == 1:
         cmd = base_cmd + BACK[backends[0]]
         p, solver_s = _run(cmd, tmo, log)
